@@ -2391,6 +2391,12 @@ def get_event_from_element(
             if element["op"] == "match":
                 # Delete flow reference from event since it is only a helper object
                 flow_event.flow = None
+                # A match via the flow name succeeds for any instance of that flow: only
+                # the parameters given in the pattern are compared, not the (empty or
+                # default) parameter values of the helper object
+                for parameter_name in temp_flow_state.arguments:
+                    if parameter_name not in flow_event_arguments:
+                        flow_event.arguments.pop(parameter_name, None)
             return flow_event
         elif element_spec.spec_type == SpecType.ACTION:
             # Action object
